@@ -1,0 +1,89 @@
+//! `impl Story` part of the verification hooks (feature `verif`); lives under
+//! `story` so it can read the private fields. See `crate::verif`.
+use crate::{
+    story::Story,
+    verif::{FUEL_EXHAUSTED, VerifAudit, VerifCounters},
+};
+
+impl Story {
+    /// Limits the number of interpreter steps; `step` fails with
+    /// [`FUEL_EXHAUSTED`] once the fuel is used up. `None` removes the limit.
+    pub fn verif_set_step_fuel(&mut self, fuel: Option<u64>) {
+        self.verif.step_fuel = fuel;
+    }
+
+    /// Sets the story seed used by shuffles and RANDOM, and clears the
+    /// previous random value, so that two instances can be made to agree.
+    pub fn verif_set_story_seed(&mut self, seed: i32) {
+        self.get_state_mut().story_seed = seed;
+        self.get_state_mut().previous_random = 0;
+    }
+
+    pub fn verif_story_seed(&self) -> i32 {
+        self.get_state().story_seed
+    }
+
+    /// Virtual clock: a time-limited continue pauses after exactly `budget`
+    /// interpreter steps of that call (instead of consulting the wall clock).
+    pub fn verif_set_async_step_budget(&mut self, budget: Option<u64>) {
+        self.verif.async_step_budget = budget;
+    }
+
+    pub fn verif_counters(&self) -> VerifCounters {
+        self.verif.counters.clone()
+    }
+
+    pub fn verif_async_active(&self) -> bool {
+        self.async_continue_active
+    }
+
+    /// Internal component summary. Guidance/evidence only, never a verdict.
+    pub fn verif_fingerprint(&self) -> String {
+        let st = self.get_state();
+        let cs = st.get_callstack().borrow();
+        let threads: Vec<String> = cs
+            .verif_thread_depths()
+            .iter()
+            .map(|d| d.to_string())
+            .collect();
+        let mut flows = st.verif_named_flow_keys();
+        flows.sort();
+        format!(
+            "rec={} async={} snap={} eval={} threads=[{}] flows={:?} cur={} err={} warn={} turn={} prevrnd={}",
+            self.recursive_continue_count,
+            self.async_continue_active,
+            self.state_snapshot_at_last_new_line.is_some(),
+            st.evaluation_stack.len(),
+            threads.join(","),
+            flows,
+            st.current_flow.name,
+            st.get_current_errors().len(),
+            st.get_current_warnings().len(),
+            st.current_turn_index,
+            st.previous_random,
+        )
+    }
+
+    /// Walks the whole content tree.
+    pub fn verif_audit(&self) -> VerifAudit {
+        VerifAudit::build_from(self.get_main_content_container())
+    }
+
+    /// Sorted list definitions: (list name, sorted (item, value)).
+    pub fn verif_list_defs(&self) -> Vec<(String, Vec<(String, i32)>)> {
+        self.list_definitions.verif_dump()
+    }
+
+    pub(crate) fn verif_on_step(&mut self) -> Result<(), crate::story_error::StoryError> {
+        self.verif.counters.steps += 1;
+        if let Some(f) = self.verif.step_fuel.as_mut() {
+            if *f == 0 {
+                return Err(crate::story_error::StoryError::InvalidStoryState(
+                    FUEL_EXHAUSTED.to_owned(),
+                ));
+            }
+            *f -= 1;
+        }
+        Ok(())
+    }
+}
